@@ -215,17 +215,23 @@ def analyse(ck):
     ln = mv.calls(lambda t: t.get("name") == "ensure_proof_public_input_len")
     t4 = mv.calls(lambda t: t.get("name") == "try_4_felts_to_bytes")
     vf = mv.calls(lambda t: t.get("name") == "verify" and (t.get("impl_adt") or "").endswith("VerifierCircuitData"))
-    ag = mv.rejects("Ne", lambda t: (P.call_name(t) or "").endswith("try_4_felts_to_bytes"), lambda t: P.param_path(t) == "self.aggregator_address")
+    ag = mv.rejects("Ne", lambda t: (P.call_name(P.ok_value(t)) or "").endswith("try_4_felts_to_bytes"), lambda t: P.param_path(t) == "self.aggregator_address")
     ok = len(ln) == 1 and len(t4) == 1 and len(vf) == 1 and len(ag) == 1 and ag[0]["outcome"] <= {"err"}
     if ok:
         la = [P.norm(mv.fr.operand_term(x)) for x in ln[0][1]["args"]]
         lok = guards.continue_block(mv.body, ln[0][0])
+        if lok is None:
+            # the length check sits in a helper that was expanded without `?`-threading: its Result is matched by a guard of its own
+            gl = [g for g in mv.gt if isinstance(g["cond"], tuple) and g["cond"][0] == "discr" and (P.call_name(P.norm(g["cond"][1])) or "").endswith("ensure_proof_public_input_len") and "err" in g["outcome"]]
+            lok = mv.ok_succ(gl[0]) if len(gl) == 1 else None
         sl = P.norm(mv.fr.operand_term(t4[0][1]["args"][0]))
         addr_len = prog.const_value("public_batch_pi::AGGREGATOR_ADDRESS_LEN")
         rng_ok = False
         for s in T.walk(sl):
             if s and s[0] == "adt" and s[1].endswith("RangeTo"):
                 rng_ok = P.const_of(dict(s[3]).get("end")) == addr_len == 4
+            if s and s[0] == "fld" and s[2] == "0" and (P.call_name(P.norm(s[1])) or "").endswith("::split_at") and len(P.norm(s[1])[4]) == 2:
+                rng_ok = P.const_of(P.norm(s[1])[4][1]) == addr_len == 4      # `pis.split_at(4).0` is `pis[..4]`
         va = [P.norm(mv.fr.operand_term(x)) for x in vf[0][1]["args"]]
         ok = (la[0] == mv.param(2) and P.param_path(la[1]) == "self.verifier.common.num_public_inputs" and lok is not None and mv.dom(lok, t4[0][0]) and rng_ok and "public_inputs" in T.show(sl, maxdepth=5)
               and mv.ok_succ(ag[0]) is not None and mv.dom(mv.ok_succ(ag[0]), vf[0][0]) and P.param_path(va[0]) == "self.verifier" and va[1] == mv.param(2))
